@@ -528,6 +528,11 @@ fn c13_one(case: &Value) -> Value {
                         Ok(v) => {
                             check_diags(&v, "validation", &mut problems);
                             info["validation_errors"] = json!(v.has_errors());
+                            info["validation_diagnostics"] = json!(v.len());
+                            if single && case["split"].as_bool() != Some(false) {
+                                let seed = case["split_seed"].as_u64().unwrap_or(case["id"].as_u64().unwrap_or(0));
+                                c13_split(&root_text, gm, &tree, &diags, &v, seed, &mut problems, &mut info);
+                            }
                         }
                         Err(p) => {
                             let msg = p.downcast_ref::<String>().cloned().or_else(|| p.downcast_ref::<&str>().map(|s| s.to_string())).unwrap_or_default();
@@ -539,6 +544,216 @@ fn c13_one(case: &Value) -> Value {
         }
     }
     json!({"id": case["id"], "problems": problems, "info": info})
+}
+
+/// One file of a split plan: the text `flat[start..end]` with every child range replaced by `include(<child>);`
+struct Piece {
+    name: String,
+    start: usize,
+    end: usize,
+    children: Vec<Piece>,
+}
+
+/// (start, end) of the child *nodes* of `node`, whose own text starts at `base` (positions are summed, not taken from the nodes)
+fn child_nodes(node: &fea_rs::Node, base: usize) -> Vec<(usize, usize, fea_rs::Kind, &fea_rs::Node)> {
+    let mut pos = base;
+    let mut out = vec![];
+    for c in node.iter_children() {
+        let len = c.text_len();
+        if let Some(n) = c.as_node() {
+            out.push((pos, pos + len, n.kind(), n));
+        }
+        pos += len;
+    }
+    out
+}
+
+fn render_piece(flat: &str, p: &Piece, files: &mut HashMap<PathBuf, Arc<str>>, segs: &mut Vec<(usize, usize, String, usize)>) {
+    let mut text = String::new();
+    let mut at = p.start;
+    for c in &p.children {
+        if c.start > at {
+            segs.push((at, c.start, p.name.clone(), text.len()));
+        }
+        text.push_str(&flat[at..c.start]);
+        text.push_str(&format!("include({});", c.name));
+        render_piece(flat, c, files, segs);
+        at = c.end;
+    }
+    if p.end > at {
+        segs.push((at, p.end, p.name.clone(), text.len()));
+    }
+    text.push_str(&flat[at..p.end]);
+    files.insert(PathBuf::from(&p.name), Arc::from(text.as_str()));
+}
+
+/// C13 split route: an error-free single file is cut at statement boundaries into an include graph (top-level statements,
+/// runs of statements with a nested include, items of feature blocks). The assembled tree must spell the flat text, and
+/// every parse / validation diagnostic of the flat text must come back with the same message at the file and offset
+/// that position was moved to.
+#[allow(clippy::too_many_arguments)]
+fn c13_split(flat: &str, gm: &fea_rs::GlyphMap, tree: &fea_rs::ParseTree, flat_parse: &fea_rs::DiagnosticSet, flat_val: &fea_rs::DiagnosticSet, seed: u64, problems: &mut Vec<String>, info: &mut Value) {
+    use fea_rs::Kind;
+    if flat.contains("include") {
+        return;
+    }
+    let mut rng = Rng(seed.wrapping_mul(0x9E3779B97F4A7C15) ^ 0xC13);
+    rng.next();
+    let top = child_nodes(tree.root(), 0);
+    if top.is_empty() {
+        return;
+    }
+    let total: usize = tree.root().text_len();
+    if total != flat.len() {
+        return;
+    }
+    let mut counter = 0usize;
+    let mut fresh = |counter: &mut usize| {
+        *counter += 1;
+        format!("p{}.fea", *counter)
+    };
+    let mut root = Piece { name: "root.fea".into(), start: 0, end: flat.len(), children: vec![] };
+    let mut feature_splits = 0usize;
+    let mut nested = 0usize;
+    let mut i = 0usize;
+    while i < top.len() {
+        let (s, e, kind, node) = top[i];
+        let r = rng.unit();
+        if r < 0.35 {
+            // the statement alone in its own file: the file starts with the statement's first byte
+            root.children.push(Piece { name: fresh(&mut counter), start: s, end: e, children: vec![] });
+            i += 1;
+        } else if r < 0.5 && i + 2 < top.len() {
+            // a run of statements (with the trivia between them) in one file, one inner statement included from a third file
+            let j = (i + 2 + rng.below(3)).min(top.len() - 1);
+            let inner = i + 1 + rng.below(j - i - 1 + 1).min(j - i - 1);
+            let inner = inner.clamp(i, j);
+            let mut p = Piece { name: fresh(&mut counter), start: s, end: top[j].1, children: vec![] };
+            p.children.push(Piece { name: fresh(&mut counter), start: top[inner].0, end: top[inner].1, children: vec![] });
+            nested += 1;
+            root.children.push(p);
+            i = j + 1;
+        } else if r < 0.75 && kind == Kind::FeatureNode {
+            // items of a feature block (an included file in feature scope is parsed by the same item loop as the block itself)
+            for (cs, ce, _, _) in child_nodes(node, s) {
+                if rng.chance(0.4) {
+                    root.children.push(Piece { name: fresh(&mut counter), start: cs, end: ce, children: vec![] });
+                    feature_splits += 1;
+                }
+            }
+            i += 1;
+        } else {
+            i += 1;
+        }
+    }
+    if root.children.is_empty() {
+        let (s, e, _, _) = top[rng.below(top.len())];
+        root.children.push(Piece { name: fresh(&mut counter), start: s, end: e, children: vec![] });
+    }
+    let mut files = HashMap::new();
+    let mut segs: Vec<(usize, usize, String, usize)> = vec![];
+    render_piece(flat, &root, &mut files, &mut segs);
+    info["split_files"] = json!(files.len());
+    info["split_feature_items"] = json!(feature_splits);
+    info["split_nested"] = json!(nested);
+    let describe = |files: &HashMap<PathBuf, Arc<str>>| -> String {
+        let mut names: Vec<_> = files.keys().map(|k| k.display().to_string()).collect();
+        names.sort();
+        names.join(",")
+    };
+    let parsed = catch_unwind(AssertUnwindSafe(|| fea_rs::parse::parse_root(PathBuf::from("root.fea"), Some(gm), Box::new(MemResolver(files.clone())))));
+    let (stree, sdiags) = match parsed {
+        Err(_) => {
+            problems.push(format!("split route: parser panicked at {} on the include graph [{}] of an error-free file", last_panic(), describe(&files)));
+            info["split_files_text"] = json!(files.iter().map(|(k, v)| (k.display().to_string(), v.to_string())).collect::<HashMap<_, _>>());
+            return;
+        }
+        Ok(Err(e)) => {
+            problems.push(format!("split route: include graph of an error-free file does not load: {e}"));
+            return;
+        }
+        Ok(Ok(x)) => x,
+    };
+    let mut bad = false;
+    let mut cat = String::with_capacity(flat.len());
+    for t in stree.root().iter_tokens() {
+        cat.push_str(t.text.as_str());
+    }
+    if cat != flat {
+        let at = cat.bytes().zip(flat.bytes()).position(|(a, b)| a != b).unwrap_or(cat.len().min(flat.len()));
+        problems.push(format!("split route: the tree assembled from the include graph does not spell the flat text: lengths {} vs {}, first difference at byte {at}", cat.len(), flat.len()));
+        bad = true;
+    }
+    // where a flat position went
+    let locate = |a: usize| -> Option<(String, usize)> { segs.iter().find(|(s, e, _, _)| *s <= a && a < *e).map(|(s, _, f, off)| (f.clone(), off + (a - s))) };
+    let key_flat = |ds: &fea_rs::DiagnosticSet| -> Vec<(String, String, usize, usize)> {
+        let mut v: Vec<_> = ds
+            .diagnostics()
+            .iter()
+            .filter_map(|d| {
+                let r = d.span();
+                let (f, off) = locate(r.start).or_else(|| if r.start == flat.len() { Some(("root.fea".to_string(), files[&PathBuf::from("root.fea")].len())) } else { None })?;
+                Some((d.text().to_string(), f, off, r.end - r.start))
+            })
+            .collect();
+        v.sort();
+        v
+    };
+    let key_split = |ds: &fea_rs::DiagnosticSet, tree: &fea_rs::ParseTree| -> Vec<(String, String, usize, usize)> {
+        let mut v: Vec<_> = ds
+            .diagnostics()
+            .iter()
+            .map(|d| {
+                let r = d.span();
+                let f = tree.get_source(d.message.file).map(|s| s.path().display().to_string()).unwrap_or_else(|| "?".into());
+                (d.text().to_string(), f, r.start, r.end - r.start)
+            })
+            .collect();
+        v.sort();
+        v
+    };
+    let mut compare = |what: &str, flat_ds: &fea_rs::DiagnosticSet, split_ds: &fea_rs::DiagnosticSet, problems: &mut Vec<String>| {
+        for d in split_ds.diagnostics() {
+            let r = d.span();
+            match stree.get_source(d.message.file) {
+                Some(src) => {
+                    let text = src.text();
+                    if r.start > r.end || r.end > text.len() {
+                        problems.push(format!("split route: {what} diagnostic range {r:?} outside its source {} of {} bytes: {}", src.path().display(), text.len(), d.text()));
+                    } else if !text.is_char_boundary(r.start) || !text.is_char_boundary(r.end) {
+                        problems.push(format!("split route: {what} diagnostic range {r:?} not on character boundaries in {}: {}", src.path().display(), d.text()));
+                    }
+                }
+                None => problems.push(format!("split route: {what} diagnostic refers to an unknown source file")),
+            }
+        }
+        let a = key_flat(flat_ds);
+        let b = key_split(split_ds, &stree);
+        if a.len() == flat_ds.len() && a != b {
+            let only_flat: Vec<_> = a.iter().filter(|x| !b.contains(x)).take(2).collect();
+            let only_split: Vec<_> = b.iter().filter(|x| !a.contains(x)).take(2).collect();
+            problems.push(format!("split route: {what} diagnostics of the include graph differ from the flat file's (message, file, offset, length): expected {only_flat:?}, got {only_split:?}"));
+        }
+        if catch_unwind(AssertUnwindSafe(|| format!("{}", split_ds.display()))).is_err() {
+            problems.push(format!("split route: rendering the {what} diagnostics panicked at {}", last_panic()));
+        }
+    };
+    let before = problems.len();
+    compare("parse", flat_parse, &sdiags, problems);
+    if !sdiags.has_errors() {
+        match catch_unwind(AssertUnwindSafe(|| fea_rs::compile::validate::<fea_rs::compile::NopVariationInfo>(&stree, gm, None))) {
+            Ok(v) => {
+                compare("validation", flat_val, &v, problems);
+                info["split_validation_diagnostics"] = json!(v.len());
+                let at_start = v.diagnostics().iter().filter(|d| d.span().start == 0 && stree.get_source(d.message.file).map(|s| s.path() != Path::new("root.fea")).unwrap_or(false)).count();
+                info["split_diagnostics_at_file_start"] = json!(at_start);
+            }
+            Err(_) => problems.push(format!("split route: validate panicked at {} on the include graph of a file that validates flat", last_panic())),
+        }
+    }
+    if bad || problems.len() > before {
+        info["split_files_text"] = json!(files.iter().map(|(k, v)| (k.display().to_string(), v.to_string())).collect::<HashMap<_, _>>());
+    }
 }
 
 fn c13(inputs: &str, journal: &str, out: &str, start: usize) {
